@@ -76,50 +76,7 @@ func checkC10(c *Ctx) {
 			continue
 		}
 		// ---- non-empty ----------------------------------------------------------
-		nonEmpty := ana.AtomCmp(func(op token.Token, x, y ssa.Value) (bool, bool) {
-			isLen := func(v ssa.Value) bool {
-				call, ok := v.(*ssa.Call)
-				if !ok {
-					return false
-				}
-				if b, ok := call.Call.Value.(*ssa.Builtin); !ok || b.Name() != "len" {
-					return false
-				}
-				return loadedAlloc(call.Call.Args[0]) == txVar
-			}
-			o := op
-			var k ssa.Value
-			switch {
-			case isLen(x):
-				k = y
-			case isLen(y):
-				k = x
-				o = ana.FlipOp(op)
-			default:
-				return false, false
-			}
-			kc, ok := k.(*ssa.Const)
-			if !ok || kc.Value == nil {
-				return false, false
-			}
-			switch kc.Value.ExactString() {
-			case "0":
-				switch o {
-				case token.GTR, token.NEQ:
-					return true, true
-				case token.EQL, token.LEQ:
-					return false, true
-				}
-			case "1":
-				switch o {
-				case token.GEQ:
-					return true, true
-				case token.LSS:
-					return false, true
-				}
-			}
-			return false, false
-		})
+		nonEmpty := lenAtom(txVar, true)
 		var guarded []ssa.Instruction
 		ana.Calls(f, func(site ssa.CallInstruction, d ana.CalleeDesc) {
 			for _, callee := range p.Callees(site) {
@@ -362,16 +319,15 @@ func checkC10(c *Ctx) {
 	}
 
 	// ---- counters -------------------------------------------------------------------------
+	c.checkRecoverAtomic("C10.counters")
 	c.checkCounter("C10.counters", "LastOutgoingBatchNonceKey", live, roots, 0)
 	c.checkCounter("C10.counters", "OutgoingSequence", live, roots, 0)
 	for _, f := range builds {
 		ok := false
 		for _, a := range allocsOfType(f, "BatchTx") {
 			for _, v := range ana.FieldStores(a)["BatchNonce"] {
-				if call, isC := v.(*ssa.Call); isC {
-					if callee := call.Call.StaticCallee(); callee != nil && c.isIncrementOf(callee, "LastOutgoingBatchNonceKey") {
-						ok = true
-					}
+				if c.isIncValue(v, f, "LastOutgoingBatchNonceKey", live) {
+					ok = true
 				}
 			}
 		}
@@ -391,12 +347,10 @@ func checkC10(c *Ctx) {
 					return
 				}
 				for _, a := range call.Common().Args {
-					if ac, isCall := a.(*ssa.Call); isCall {
-						if callee := ac.Call.StaticCallee(); callee != nil && c.isIncrementOf(callee, "OutgoingSequence") {
-							cin := call.(ssa.Instruction)
-							if cin.Block() == e.At.Block() && ana.InstrIndex(cin) < ana.InstrIndex(e.At) || cin.Block().Dominates(e.At.Block()) {
-								ok = true
-							}
+					if c.isIncValue(a, f, "OutgoingSequence", live) {
+						cin := call.(ssa.Instruction)
+						if cin.Block() == e.At.Block() && ana.InstrIndex(cin) < ana.InstrIndex(e.At) || cin.Block().Dominates(e.At.Block()) {
+							ok = true
 						}
 					}
 				}
@@ -438,4 +392,52 @@ func fillWidth(recv ssa.Value) int64 {
 		}
 	}
 	return -1
+}
+
+// lenAtom is the condition len(*v) > 0 (want) or len(*v) == 0 (!want) in its equivalent spellings.
+func lenAtom(txVar *ssa.Alloc, want bool) ana.Atom {
+	return ana.AtomCmp(func(op token.Token, x, y ssa.Value) (bool, bool) {
+		isLen := func(v ssa.Value) bool {
+			call, ok := v.(*ssa.Call)
+			if !ok {
+				return false
+			}
+			if b, ok := call.Call.Value.(*ssa.Builtin); !ok || b.Name() != "len" {
+				return false
+			}
+			return loadedAlloc(call.Call.Args[0]) == txVar
+		}
+		o := op
+		var k ssa.Value
+		switch {
+		case isLen(x):
+			k = y
+		case isLen(y):
+			k = x
+			o = ana.FlipOp(op)
+		default:
+			return false, false
+		}
+		kc, ok := k.(*ssa.Const)
+		if !ok || kc.Value == nil {
+			return false, false
+		}
+		switch kc.Value.ExactString() {
+		case "0":
+			switch o {
+			case token.GTR, token.NEQ:
+				return want, true
+			case token.EQL, token.LEQ:
+				return !want, true
+			}
+		case "1":
+			switch o {
+			case token.GEQ:
+				return want, true
+			case token.LSS:
+				return !want, true
+			}
+		}
+		return false, false
+	})
 }
